@@ -1020,8 +1020,19 @@ func (c *Conn) readLoop() {
 		// A stream-level WINDOW_UPDATE has to be applied whether or not a
 		// request is still waiting on the stream, so it is handled before the
 		// lookup in dispatch.
+		//
+		// And that is all there is to it. The frame says nothing about the
+		// response, so it is not handed on: dispatch takes the request's Ctx,
+		// the write loop holds that while it writes the request's body, and
+		// whoever waits for a Ctx puts a limit on the write in progress. A
+		// server that reads an upload slowly and sends credit for it as it
+		// goes, which is what servers do, lost the connection to that limit.
 		if fr.Type() == FrameWindowUpdate {
 			c.addWindow(fr.Stream(), int32(fr.Body().(*WindowUpdate).Increment()))
+
+			ReleaseFrameHeader(fr)
+
+			continue
 		}
 
 		stop := c.dispatch(fr)
